@@ -12,6 +12,7 @@ mod e4b;
 mod e5run;
 mod gen;
 mod gen3;
+mod gen_mix;
 mod gen_scale;
 mod implrun;
 mod miri;
